@@ -794,12 +794,22 @@ package parser
 //@     invariant [C08:table-names-inv] i == len(tableEntries) && statement != nil && fresh(statement) && statement.Name != nil && fresh(statement.Name)
 //@        && (forall k int :: {tableEntries[k]} (0 <= k && k < len(tableEntries)) ==> TableEntryOK(tableEntries[k], statement.Name.Value, mapScriptTypeToken.Literal, k))
 //@   loop 3
+//@     invariant [C13:subst-entry-inv] len(sb.pieces) >= 0
+//@     transition [C13:subst-entry] (prev(sb.nbytes) != 0
+//@          ? (len(sb.pieces) == len(prev(sb.pieces)) + 2 && sb.pieces[len(prev(sb.pieces)) + 1] == (indom(p.constants, prev(p.curToken.Literal)) ? p.constants[prev(p.curToken.Literal)] : prev(p.curToken.Literal)))
+//@          : (len(sb.pieces) == len(prev(sb.pieces)) + 1 && sb.pieces[len(prev(sb.pieces))] == (indom(p.constants, prev(p.curToken.Literal)) ? p.constants[prev(p.curToken.Literal)] : prev(p.curToken.Literal))))
+//@        && (forall k int :: {sb.pieces[k]} (0 <= k && k < len(prev(sb.pieces))) ==> sb.pieces[k] == prev(sb.pieces)[k])
 //@     invariant [C08:inline-names-inv] statement != nil && fresh(statement) && statement.Name != nil && fresh(statement.Name)
 //@        && (forall k int :: {statement.MapScripts[k]} (0 <= k && k < len(statement.MapScripts)) ==> PlainEntryOK(statement.MapScripts[k], statement.Name.Value))
 //@        && (forall t int :: {statement.TableMapScripts[t]} (0 <= t && t < len(statement.TableMapScripts)) ==> TableOK(statement.TableMapScripts[t], statement.Name.Value))
 //@     invariant [C08:table-names-inv] i == len(tableEntries) && statement != nil && fresh(statement) && statement.Name != nil && fresh(statement.Name)
 //@        && (forall k int :: {tableEntries[k]} (0 <= k && k < len(tableEntries)) ==> TableEntryOK(tableEntries[k], statement.Name.Value, mapScriptTypeToken.Literal, k))
 //@   loop 4
+//@     invariant [C13:subst-entry-inv] len(sb.pieces) >= 0
+//@     transition [C13:subst-entry] (prev(sb.nbytes) != 0
+//@          ? (len(sb.pieces) == len(prev(sb.pieces)) + 2 && sb.pieces[len(prev(sb.pieces)) + 1] == (indom(p.constants, prev(p.curToken.Literal)) ? p.constants[prev(p.curToken.Literal)] : prev(p.curToken.Literal)))
+//@          : (len(sb.pieces) == len(prev(sb.pieces)) + 1 && sb.pieces[len(prev(sb.pieces))] == (indom(p.constants, prev(p.curToken.Literal)) ? p.constants[prev(p.curToken.Literal)] : prev(p.curToken.Literal))))
+//@        && (forall k int :: {sb.pieces[k]} (0 <= k && k < len(prev(sb.pieces))) ==> sb.pieces[k] == prev(sb.pieces)[k])
 //@     invariant [C08:inline-names-inv] statement != nil && fresh(statement) && statement.Name != nil && fresh(statement.Name)
 //@        && (forall k int :: {statement.MapScripts[k]} (0 <= k && k < len(statement.MapScripts)) ==> PlainEntryOK(statement.MapScripts[k], statement.Name.Value))
 //@        && (forall t int :: {statement.TableMapScripts[t]} (0 <= t && t < len(statement.TableMapScripts)) ==> TableOK(statement.TableMapScripts[t], statement.Name.Value))
@@ -1096,5 +1106,13 @@ package parser
 //@   ensures [C20:stack-balanced] result0 == nil ==> (SameStack(p.breakStack, old(p.breakStack)) && SameStack(p.continueStack, old(p.continueStack)))
 //@   ensures [C18:located] result0 != nil ==> ErrLoc(result0)
 //@   loopinv [C20:stack-balanced-inv] SameStack(p.breakStack, old(p.breakStack)) && SameStack(p.continueStack, old(p.continueStack))
+// C13: the value of a constant is the text of the tokens up to the next top-level keyword, earlier constants expanded,
+// single spaces between them
+//@   loop 1
+//@     invariant [C13:const-value-inv] len(sb.pieces) >= 0
+//@     transition [C13:const-value] (prev(sb.nbytes) > 0
+//@          ? (len(sb.pieces) == len(prev(sb.pieces)) + 2 && sb.pieces[len(prev(sb.pieces))] == runeStr(' ') && sb.pieces[len(prev(sb.pieces)) + 1] == (indom(p.constants, prev(p.peekToken.Literal)) ? p.constants[prev(p.peekToken.Literal)] : prev(p.peekToken.Literal)))
+//@          : (len(sb.pieces) == len(prev(sb.pieces)) + 1 && sb.pieces[len(prev(sb.pieces))] == (indom(p.constants, prev(p.peekToken.Literal)) ? p.constants[prev(p.peekToken.Literal)] : prev(p.peekToken.Literal))))
+//@        && (forall k int :: {sb.pieces[k]} (0 <= k && k < len(prev(sb.pieces))) ==> sb.pieces[k] == prev(sb.pieces)[k])
 //@ end
 
